@@ -45,6 +45,7 @@ def steps_of(ix, f) -> dict[str, int]:
 
 
 def run(chk: Check) -> None:
+    run_import_errors(chk, get_index())
     ix = get_index()
 
     # ---------------- R07.1
@@ -227,3 +228,68 @@ def run(chk: Check) -> None:
         r4.ok("process_graph: manager.commit() before manager.broadcast when workers exist", pg.loc(bcast[0].stmt))
     else:
         r4.violation("process_graph: manager.commit() before manager.broadcast when workers exist", pg.loc(bcast[0].stmt), "workers may read the cache before the coordinator's graph-loading writes are committed")
+
+
+def run_import_errors(chk: Check, ix) -> None:
+    """R07.5: diagnostics produced while the coordinator loads the graph reach the worker that checks the module."""
+    from ..pattern import find_all, has
+    r5 = chk.rule("R07.5", "errors reported during graph loading are recorded per file while workers exist, shipped with the SCC request for every module of the batch, and replayed by the worker into its own Errors before processing", floor=4)
+    rep = ix.func("mypy.errors.Errors.report")
+    g = CFG(rep.node)
+    add = [n for n in g.nodes if any(call_name(c) == "add_error_info" for c in n.calls())]
+    rec = [n for n in g.nodes if any(call_name(c) == "append" and "recorded" in norm(c.func.value) for c in n.calls())]
+    tests = [n for n in g.nodes if n.kind == "test" and norm(n.exprs[0]) == "self.global_watcher"]
+    ok = bool(add and rec and tests) and all(g.must_pass(g.entry, [a], tests, labels_excluded=("exc",)) for a in add) and all(r in g.reachable([m for t in tests for m, lab in t.succ if lab == "true"], labels_excluded=("exc",)) for r in rec)
+    if ok and has(rep.node, "self.recorded[self.file].append($i)", "self.add_error_info($i)"):
+        r5.ok("Errors.report records every ErrorInfo under its file while global_watcher is on", rep.loc(rec[0].stmt))
+    else:
+        r5.violation("Errors.report records every ErrorInfo under its file while global_watcher is on", rep.loc(), "an error reported by the coordinator during graph loading is not (always) recorded for replay: under parallel checking it is lost")
+    # the watcher is switched on before plugins/graph loading when there are workers, and off only after load_graph finished
+    bi = next((f for q, f in ix.functions.items() if f.module.name == "mypy.build" and f.parent is None and any(isinstance(a, ast.Assign) and norm(a) == "errors.global_watcher = True" for a in ast.walk(f.node))), None)
+    lg = ix.func("mypy.build.load_graph")
+    offs = [a for a in ast.walk(lg.node) if isinstance(a, ast.Assign) and norm(a) == "manager.errors.global_watcher = False"]
+    if bi is not None and offs:
+        gb = CFG(bi.node)
+        on = [n for n in gb.nodes if n.kind == "stmt" and norm(n.stmt) == "errors.global_watcher = True"]
+        loaders = [n for n in gb.nodes if any(call_name(c) in ("dispatch", "load_graph", "BuildManager") for c in n.calls())]
+        from ..cfg import branch_conditions
+        pos, neg = branch_conditions(bi.module.parents(), bi.node, on[0].stmt)
+        under_workers = [norm(t) for t in pos] == ["workers"] and not neg
+        before = bool(loaders) and all(n.lineno > on[0].lineno for n in loaders)
+        last_stmt = [st for st in lg.node.body if not isinstance(st, ast.Return)][-1]
+        off_last = offs[0] is last_stmt
+        if under_workers and before and off_last:
+            r5.ok("global_watcher is on from before the build manager is created until load_graph has finished (only with workers)", bi.loc(on[0].stmt))
+        else:
+            r5.violation("global_watcher is on from before the build manager is created until load_graph has finished (only with workers)", bi.loc(on[0].stmt), f"recording window changed (under `workers`: {under_workers}; before graph loading: {before}; switched off as load_graph's last step: {off_last})")
+    else:
+        r5.violation("global_watcher is on from before the build manager is created until load_graph has finished (only with workers)", lg.loc(), "the recording switch was not found")
+    # coordinator ships recorded errors of every module in the batch
+    sub = ix.func("mypy.build.BuildManager.submit_to_workers") if "mypy.build.BuildManager.submit_to_workers" in ix.functions else None
+    if sub is None:
+        cands = [f for q, f in ix.functions.items() if f.module.name == "mypy.build" and any(isinstance(c, ast.Call) and call_name(c) == "SccRequestMessage" and any(k.arg == "mod_data" and not isinstance(k.value, ast.Dict) for k in c.keywords) for c in ast.walk(f.node))]
+        sub = cands[0] if cands else None
+    if sub is None:
+        raise AnalysisError("the function that sends SccRequestMessage with mod_data was not found")
+    b = find_all(sub.node, ["$ie = {$m: self.errors.recorded[$p] for $s in $batch for $m in $s.mod_ids if ($p := graph[$m].xpath) in self.errors.recorded}"])
+    msg = [c for c in ast.walk(sub.node) if isinstance(c, ast.Call) and call_name(c) == "SccRequestMessage"]
+    kw = {k.arg: norm(k.value) for c in msg for k in c.keywords}
+    sccs_src = None
+    for c in msg:
+        for k in c.keywords:
+            if k.arg == "scc_ids" and isinstance(k.value, ast.ListComp):
+                sccs_src = norm(k.value.generators[0].iter)
+    if b and kw.get("import_errors") == b[0]["ie"] and sccs_src == b[0]["batch"]:
+        r5.ok("the SCC request carries errors.recorded[xpath] for every module of every SCC in the batch", sub.loc(msg[0]))
+    else:
+        r5.violation("the SCC request carries errors.recorded[xpath] for every module of every SCC in the batch", sub.loc(msg[0]) if msg else sub.loc(), "recorded import errors are not shipped for all modules of the batch that is sent")
+    # worker replays
+    ls = ix.func("mypy.build_worker.worker.load_states")
+    if has(ls.node, "for $e in import_errors[$id]:\n    manager.errors.add_error_info($e)") and has(ls.node, "manager.errors.set_file($st.xpath, $id, $st.options)"):
+        loops = [l for l in ast.walk(ls.node) if isinstance(l, ast.For) and norm(l.iter) == "mod_ids" and any(isinstance(c, ast.Call) and call_name(c) == "add_error_info" for c in ast.walk(l))]
+        if loops:
+            r5.ok("load_states replays import_errors[id] for every module id of the request, after set_file", ls.loc(loops[0]))
+        else:
+            r5.violation("load_states replays import_errors[id] for every module id of the request, after set_file", ls.loc(), "the replay does not run over all module ids of the request")
+    else:
+        r5.violation("load_states replays import_errors[id] for every module id of the request, after set_file", ls.loc(), "the worker no longer replays the coordinator's import errors into its Errors object")
